@@ -70,6 +70,16 @@ static double vs_exp2(double x) {
 #undef isfinite
 #define isfinite(x) __CPROVER_isfinitef(x)
 
+/* new NumberDataType(...) as the constructors of datatype.h initialise it (mirror of the two initialiser lists used by derive; the type cache is not modelled) */
+NDT g_new_type; unsigned g_new_calls;
+size_t NDT_calcPrecision(int divisor);
+static inline void env_new_type(const NDT* base, size_t bitCount, int divisor, const NDT** derived) {
+  g_new_calls = g_new_calls + 1;
+  g_new_type = *base; g_new_type.m_bitCount = bitCount; g_new_type.m_divisor = divisor == 0 ? 1 : divisor; g_new_type.m_baseType = base->m_baseType ? base->m_baseType : base; g_new_type.m_incValue = 0;
+  if (base->m_bitCount < 8) { g_new_type.m_minValue = 0; g_new_type.m_maxValue = (1u << bitCount) - 1u; g_new_type.m_precision = 0; }
+  else { g_new_type.m_precision = NDT_calcPrecision(divisor); g_new_type.m_firstBit = 0; }
+  *derived = &g_new_type;
+}
 #include "gen_protos.h"
 #include "ss_contracts.h"
 
@@ -394,4 +404,43 @@ void h_roundtrip(void) {
       }
     }
   }
+}
+
+/* a field definition with its own divisor / bit count derives a type from the base type: the combined divisor is the mathematical product (or the
+   definition is rejected), and the derived type is again a valid type shape (what every numeric proof of this unit assumes) */
+void h_derive(void) {
+  NDT t = nondet_NDT(); int divisor = nondet_int(); size_t bitCount = nondet_size(); const NDT* out = NULL; g_new_calls = 0;
+  __CPROVER_assume(spec_ndt_valid(&t) && divisor >= -MAX_DIVISOR && divisor <= MAX_DIVISOR && bitCount <= 64);       /* the divisor as DataField::create parses it */
+  __CPROVER_assume(!(t.m_bitCount < 8) || (t.m_divisor == 1 && t.m_replacement == 0));      /* bit types of the built-in table (h_type_table) */
+  __CPROVER_assume(t.m_bitCount < 8 || !NDT_FLAG(&t, ADJ));            /* only bit types have an adjustable length (h_type_table) */
+#ifdef CASE_BASEDIV
+  __CPROVER_assume(t.m_divisor == (CASE_BASEDIV));      /* divisor of the base type: one run per built-in divisor (a symbolic product does not finish) */
+#endif
+  result_t r = NDT_derive(&t, divisor, bitCount, &out);
+  long d = divisor == 0 ? 1 : divisor, b = t.m_divisor, combined;
+  _Bool invalid = 0;
+  if (b == 1) combined = d; else if (d == 1) combined = b; else if (d < 0) { invalid = b > 1; combined = d * -b; } else if (b < 0) { invalid = d > 1; combined = d * -b; } else combined = d * b;
+  if (invalid) { __CPROVER_assert(r == RESULT_ERR_INVALID_ARG, "[C07] a divisor cannot be combined with a multiplier of the base type"); }
+  else if (combined < -MAX_DIVISOR || combined > MAX_DIVISOR) { __CPROVER_assert(r < 0, "[C07,C20] a combined divisor beyond the supported range is rejected (and never wraps)"); CANARY("too big"); }
+  else if (r == RESULT_OK) {
+    __CPROVER_assert(out != NULL && (long)out->m_divisor == combined, "[C07] the derived type has the product of both divisors");
+    __CPROVER_assert(spec_ndt_valid(out), "[C05,C07] a derived type is a valid type shape again");
+    if (out != &t) { CANARY("new type"); }
+  }
+}
+
+/* every built-in number type (table generated from the `add(new NumberDataType(...))` lines, rule R15g) is a valid type shape: this discharges the
+   precondition spec_ndt_valid of the numeric proofs for the types that exist (derived types: h_derive) */
+void h_type_table(void) {
+  for (unsigned i = 0; i < NDT_TABLE_N; i++) {
+    NDT t; t.m_bitCount = ndt_table[i].bitCount; t.m_flags = (uint16_t)(ndt_table[i].flags | NUM); t.m_replacement = ndt_table[i].replacement; t.m_incValue = 0; t.m_baseType = NULL;
+    t.m_divisor = ndt_table[i].divisor == 0 ? 1 : ndt_table[i].divisor;
+    if (ndt_table[i].is_bits) { t.m_minValue = 0; t.m_maxValue = (1u << ndt_table[i].bitCount) - 1u; t.m_precision = 0; t.m_firstBit = (int16_t)ndt_table[i].firstBit; }
+    else { t.m_minValue = ndt_table[i].minValue; t.m_maxValue = ndt_table[i].maxValue; t.m_precision = NDT_calcPrecision(ndt_table[i].divisor); t.m_firstBit = 0; }
+    __CPROVER_assert(spec_ndt_valid(&t), "[C05,C07] every built-in number type is a valid type shape");
+    __CPROVER_assert(!ndt_table[i].is_bits || (t.m_replacement == 0 && t.m_divisor == 1), "[C05] bit types have no replacement value and no divisor");
+    __CPROVER_assert(ndt_table[i].is_bits || !NDT_FLAG(&t, ADJ), "[C05] only bit types have an adjustable length");
+    __CPROVER_assert(t.m_divisor == 1 || t.m_divisor == 2 || t.m_divisor == 16 || t.m_divisor == 256 || t.m_divisor == 1000, "[C07] the built-in divisors are those the derive proof is split over");
+  }
+  CANARY("table checked");
 }
